@@ -41,6 +41,12 @@ type pnSpec struct {
 	dc    *time.Time
 	tags  string
 	dates []time.Time
+	// camliContent (added by a later "cc" op): the claim date, the file's unixMtime, whether the file
+	// blob has reached the index
+	ccKey     string
+	ccDate    time.Time
+	ft        *time.Time
+	fileThere bool
 }
 
 func (p *pnSpec) op() string {
@@ -74,6 +80,12 @@ func (p *pnSpec) anytime() (time.Time, bool) {
 	if p.dc != nil {
 		return *p.dc, true
 	}
+	if p.ccKey != "" {
+		if p.fileThere && p.ft != nil {
+			return *p.ft, true
+		}
+		return p.ccDate, true
+	}
 	return p.modtime()
 }
 
@@ -89,8 +101,14 @@ type gen struct {
 }
 
 func (g *gen) do(line string) string {
-	out := g.ex(strings.Fields(line))
+	f := strings.Fields(line)
+	LastSource = ""
+	out := g.ex(f)
 	g.r.Op(line, out)
+	if LastSource != "" && len(f) >= 3 && (f[0] == "q" || f[0] == "ar") {
+		// which branch of pickCandidateSource served this (sort, constraint class)
+		g.r.Hit("source:" + f[1] + ":" + f[2][:1] + ":" + LastSource)
+	}
 	return out
 }
 
@@ -169,7 +187,7 @@ func (g *gen) makeWorld(kind string, n int, w *world) *wspec {
 		g.keyN++
 		p := &pnSpec{key: fmt.Sprintf("k%dx%d", g.r.Res.Seed, g.keyN)}
 		p.ref = w.RefOfKey(p.key)
-		p.tags = []string{"-", "a", "b", "ab", "a", "ab"}[rnd.Intn(6)]
+		p.tags = []string{"-", "a", "b", "ab", "a", "ab", "y", "ay", "aby", "by", "ay", "y"}[rnd.Intn(12)]
 		if kind == "distinct" { // pairwise distinct creation times (CreatedAsc leaves ties to sort.Sort)
 			d := pool[i%len(pool)]
 			p.dc = &d
@@ -206,14 +224,23 @@ func (g *gen) makeWorld(kind string, n int, w *world) *wspec {
 	return ws
 }
 
-func consMatches(cons, tags string) bool {
+func consMatches(cons string, p *pnSpec) bool {
+	has := func(c string) bool { return strings.Contains(p.tags, c) }
 	switch cons {
 	case "all", "t":
 		return true
 	case "n":
-		return tags == "ab"
+		return has("a") && has("b")
+	case "z":
+		return has("y") && has("a")
+	case "a", "b", "y":
+		return has(cons)
 	}
-	return strings.Contains(tags, cons)
+	if strings.HasPrefix(cons, "p") { // and(Permanode{}, BlobRefPrefix)
+		pfx, _ := hk.UnHex(cons[1:])
+		return strings.HasPrefix(p.ref.String(), string(pfx))
+	}
+	panic("cons " + cons)
 }
 
 // expected order, computed by the oracle from the spec times: time desc, then ref desc
@@ -224,7 +251,7 @@ func (ws *wspec) expectedFull(sortk, cons string) []string {
 	}
 	var l []it
 	for i, p := range ws.pns {
-		if !consMatches(cons, p.tags) {
+		if !consMatches(cons, p) {
 			continue
 		}
 		var t time.Time
@@ -312,6 +339,7 @@ func isWindow(full, res []string, pivot string) bool {
 
 func (g *gen) runWorld(kind string, n int, limits []int, aroundLimits []int) {
 	r := g.r
+	rnd := r.R
 	w := newWorld() // only used to compute refs of keys (signing is deterministic)
 	ws := g.makeWorld(kind, n, w)
 	r.Case("world " + kind + " n=" + strconv.Itoa(n))
@@ -476,8 +504,75 @@ func (g *gen) runWorld(kind string, n int, limits []int, aroundLimits []int) {
 			}
 		}
 	}
-	round([]string{"all", "a", "b", "t", "n"}, limits, aroundLimits)
+	// camliContent: some permanodes get a content file carrying a time; the file blob reaches the index
+	// either right away or LATE – after the claim and after the first round of queries
+	var late []*pnSpec
+	if kind != "one" || rnd.Bool() {
+		pool := g.pool(kind)
+		for i, p := range ws.pns {
+			if len(p.dates) == 0 || !rnd.Chance(45) {
+				continue
+			}
+			g.keyN++
+			p.ccKey = fmt.Sprintf("f%dx%d", r.Res.Seed, g.keyN)
+			p.ccDate = pool[rnd.Intn(len(pool))]
+			if p.ccDate.IsZero() || p.ccDate.Unix() == 0 || !p.ccDate.Before(AttrClaimCutoff) {
+				p.ccDate = time.Unix(1322443956, 123456).UTC().Add(time.Duration(rnd.Intn(3)) * time.Second)
+			}
+			fts := "none"
+			if rnd.Chance(85) {
+				ft := pool[(len(ws.pns)+i)%len(pool)]
+				if kind != "distinct" {
+					ft = pool[rnd.Intn(len(pool))]
+				}
+				if ft.IsZero() {
+					ft = ft.Add(1)
+				}
+				p.ft = &ft
+				fts = Nanos(ft)
+			}
+			p.dates = append(p.dates, p.ccDate)
+			if !g.expectTimes(fmt.Sprintf("cc %d %s %s %s", i, p.ccKey, Nanos(p.ccDate), fts), p) {
+				return
+			}
+			if p.dc == nil {
+				r.Hit("content:time-from-camliContent-claim")
+			}
+			if rnd.Chance(40) {
+				p.fileThere = true
+				if !g.expectTimes("file "+p.ccKey, p) {
+					return
+				}
+				r.Hit("content:file-indexed-before-first-query")
+			} else {
+				late = append(late, p)
+			}
+		}
+	}
+	prefixConss := func() []string {
+		// and(Permanode{}, BlobRefPrefix): a one-hex-digit prefix shared by some permanodes, and one full ref
+		p := ws.pns[rnd.Intn(len(ws.pns))].ref.String()
+		return []string{"p" + hk.Hex([]byte(p[:len("sha224-")+1])), "p" + hk.Hex([]byte(p))}
+	}
+	round(append([]string{"all", "a", "b", "t", "n", "y", "z"}, prefixConss()...), limits, aroundLimits)
 	g.unsortedSorts(ws, limits, aroundLimits)
+	if len(late) > 0 {
+		before := join(ws.expectedFull("c", "all"))
+		for _, p := range late {
+			p.fileThere = true
+			if !g.expectTimes("file "+p.ccKey, p) {
+				return
+			}
+			r.Hit("content:file-indexed-late-after-query")
+			if p.dc == nil && p.ft != nil {
+				r.Hit("content:late-file-changed-sort-time")
+			}
+		}
+		if join(ws.expectedFull("c", "all")) != before {
+			r.Hit("content:late-file-changed-created-order")
+		}
+		round([]string{"all", "a", "y"}, limits[:3], aroundLimits[1:2])
+	}
 	// the corpus grows between queries: the sorted-permanode caches of the corpus must be rebuilt
 	if g.r.R.Chance(50) {
 		k := 1 + g.r.R.Intn(2)
@@ -493,11 +588,23 @@ func (g *gen) runWorld(kind string, n int, limits []int, aroundLimits []int) {
 			ws.pns = append(ws.pns, p)
 		}
 		r.Hit("order:cache-invalidated-by-new-permanode")
-		round([]string{"all", "a"}, limits[1:3], aroundLimits[1:2])
+		round([]string{"all", "a", "y"}, limits[1:3], aroundLimits[1:2])
 	}
 	if len(r.Res.Samples) < 6 {
 		r.Sample(map[string]any{"world": kind, "n": n, "first_op": ws.pns[0].op()})
 	}
+}
+
+// expectTimes executes an op that answers with the permanode's times and compares with the spec.
+func (g *gen) expectTimes(op string, p *pnSpec) bool {
+	out := g.do(op)
+	at, aok := p.anytime()
+	mt, mok := p.modtime()
+	if want := "ok " + showTime(at, aok) + " " + showTime(mt, mok); out != want {
+		g.r.Fail("world-times", "corpus times differ from the claims / file uploaded: "+op, want, out, g.r.CaseOps())
+		return false
+	}
+	return true
 }
 
 func (ws *wspec) distinctAnyTimes() bool {
@@ -519,7 +626,7 @@ func (ws *wspec) expectedUnsorted(sortk, cons string) (out []string, sortErr boo
 	var l []int
 	missing := false
 	for i, p := range ws.pns {
-		if !consMatches(cons, p.tags) {
+		if !consMatches(cons, p) {
 			continue
 		}
 		if _, ok := p.anytime(); !ok {
